@@ -68,3 +68,16 @@ def power_coeffs(P):
             s = s + ((-1) ** (j - i)) * ops.binom(j, i) * P[i]
         out.append(ops.binom(n, j) * s)
     return out
+
+
+def green_integral(P):
+    """int_0^1 x(t) y'(t) dt for the Bezier curve with control points P, from the monomial
+    coefficients: x = sum a_j t^j, y = sum b_k t^k  ->  sum_{j,k>=1} a_j k b_k / (j+k)"""
+    co = power_coeffs(P)[::-1]                  # co[j] multiplies t**j
+    a = [ops.re(z) for z in co]
+    b = [ops.im(z) for z in co]
+    s = 0
+    for j in range(len(a)):
+        for k in range(1, len(b)):
+            s = s + a[j] * (k * b[k]) / (j + k)
+    return s
